@@ -215,6 +215,68 @@ theorem sgm_step_generated (off rows cols dm vm : Nat) (m0 : Store Val) (f0 : St
     have h2 : k ≠ f0.next + 1 := by omega
     simp [Store.alloc, h1, h2]
 
+/-! ### the specification only reads the output inside the map: transfer to the generated step -/
+
+theorem midOf_agree (meth : Method) (a : DMap) {b b' : DMap} (h : Agree b b') (hR : b.rows = a.rows) (hC : b.cols = a.cols) :
+    Agree (midOf meth a b) (midOf meth a b') := by
+  cases meth
+  · refine ⟨rfl, rfl, fun r c hr hc => ?_, fun r c hr hc => ?_⟩ <;>
+      simp only [midOf] at hr hc ⊢ <;>
+      simp only [h.disp r c (hR ▸ hr) (hC ▸ hc), h.flag r c (hR ▸ hr) (hC ▸ hc)]
+  · refine ⟨rfl, rfl, fun r c hr hc => ?_, fun r c hr hc => ?_⟩ <;>
+      simp only [midOf] at hr hc ⊢ <;>
+      simp only [h.disp r c (hR ▸ hr) (hC ▸ hc), h.flag r c (hR ▸ hr) (hC ▸ hc)]
+
+theorem sourcesOf_congr (meth : Method) (a : DMap) {b b' : DMap} (h : Agree b b') (hR : b.rows = a.rows)
+    (hC : b.cols = a.cols) (r c : Nat) : sourcesOf meth a b r c = sourcesOf meth a b' r c := by
+  unfold sourcesOf
+  rw [sourcesMc_congr (midOf_agree .mccnn a h hR hC), sourcesSgm_congr (midOf_agree .sgm a h hR hC)]
+
+theorem pixelOK_congr (meth : Method) (off : Nat) (a : DMap) {b b' : DMap} (h : Agree b b') (hR : b.rows = a.rows)
+    (hC : b.cols = a.cols) (r c : Nat) (hr : r < a.rows) (hc : c < a.cols) :
+    pixelOK meth off a b r c = pixelOK meth off a b' r c := by
+  unfold pixelOK clausesAt viewAt
+  rw [sourcesOf_congr meth a h hR hC, h.flag r c (hR ▸ hr) (hC ▸ hc), h.disp r c (hR ▸ hr) (hC ▸ hc)]
+
+/-- **The specification of C14 does not see cells outside the map**: two outputs that agree inside satisfy it together. -/
+theorem spec_congr (meth : Method) (off : Nat) (a : DMap) {b b' : DMap} (h : Agree b b') (hR : b.rows = a.rows)
+    (hC : b.cols = a.cols) : spec meth off a b = spec meth off a b' := by
+  unfold spec
+  rw [← h.rows, ← h.cols]
+  congr 1
+  rw [Bool.eq_iff_iff]
+  simp only [List.all_eq_true, List.mem_range]
+  constructor
+  · intro H r hr c hc
+    rw [← pixelOK_congr meth off a h hR hC r c hr hc]; exact H r hr c hc
+  · intro H r hr c hc
+    rw [pixelOK_congr meth off a h hR hC r c hr hc]; exact H r hr c hc
+
+/-- **C14 for the GENERATED mc-cnn step**: every clause (`unflagged_untouched`, `filled_bits`, `filled_finite`,
+    `filled_from_valid`, `filled_between_min_max`, `no_source_stays_invalid`, `filled_when_source`, `border_bit0_only`, …)
+    holds at every pixel between the arrays the dataset held before the call and the arrays the generated
+    `interpolatedDisparityMcCnn` leaves in it — every well-formed map, size, offset, store. -/
+theorem mccnn_step_spec (off rows cols dm vm : Nat) (m0 : Store Val) (f0 : Store Nat)
+    (hwf : wf .or .mccnn off (dmapOf rows cols (m0.arr dm) (f0.arr vm)) = true) :
+    spec .mccnn off (dmapOf rows cols (m0.arr dm) (f0.arr vm))
+      (dmapOf rows cols
+        ((interpolatedDisparityMcCnn off rows cols dm vm m0 f0).1.arr (interpolatedDisparityMcCnn off rows cols dm vm m0 f0).2.2.1)
+        ((interpolatedDisparityMcCnn off rows cols dm vm m0 f0).2.1.arr (interpolatedDisparityMcCnn off rows cols dm vm m0 f0).2.2.2))
+      = true := by
+  rw [spec_congr .mccnn off (dmapOf rows cols (m0.arr dm) (f0.arr vm)) (mccnn_step_generated off rows cols dm vm m0 f0).1 rfl rfl]
+  exact C14.spec_holds ⟨true, .or⟩ rfl .mccnn off _ hwf
+
+/-- **C14 for the GENERATED sgm step.** -/
+theorem sgm_step_spec (off rows cols dm vm : Nat) (m0 : Store Val) (f0 : Store Nat)
+    (hwf : wf .or .sgm off (dmapOf rows cols (m0.arr dm) (f0.arr vm)) = true) :
+    spec .sgm off (dmapOf rows cols (m0.arr dm) (f0.arr vm))
+      (dmapOf rows cols
+        ((interpolatedDisparitySgm off rows cols dm vm m0 f0).1.arr (interpolatedDisparitySgm off rows cols dm vm m0 f0).2.2.1)
+        ((interpolatedDisparitySgm off rows cols dm vm m0 f0).2.1.arr (interpolatedDisparitySgm off rows cols dm vm m0 f0).2.2.2))
+      = true := by
+  rw [spec_congr .sgm off (dmapOf rows cols (m0.arr dm) (f0.arr vm)) (sgm_step_generated off rows cols dm vm m0 f0).1 rfl rfl]
+  exact C14.spec_holds ⟨true, .or⟩ rfl .sgm off _ hwf
+
 /-- the attribute each class leaves, as read in the source -/
 theorem attrs_source : Generated.KernelsInterpStep.attrs
     = [("McCnnInterpolation", "mc-cnn"), ("SgmInterpolation", "sgm")] := by decide
